@@ -29,15 +29,27 @@ func init() {
 func c03Cfg() gen.Cfg {
 	cfg := gen.DefaultCfg()
 	cfg.Datetime = true
-	cfg.Keys = []string{"a", "b", "_x", "x1", "é", "key with space", "last", "true", "null", "strict", "to", "exists", "is", "with", "type", "\"q\"", "tab\there", "back\\slash", "C:\\apps", "\\U0001F600x", "\\a", "\U0001F600", "日本", "a.b", "$", "@", "", "1a", " nbsp", "​zw", "\x7f"}
-	cfg.VarNames = []string{"v", "w", "arr", "x_1", "é", "with space", "1", "日本", "a\"b"}
-	cfg.Strs = []string{"a", "ab", "", "x y", "\"", "\\", "\n", "\t\r\b\f\v", "é", "ÿ", "Ā", "퟿", "", "\U0001F600", "\U0010FFFF", "a\x01b", "\x7f", "\u0080", " ", "日本語", "'single'", "/* not a comment */", "\\u0041", "dir\\archive", "x\\U0001F600y\\", "\\\\a\\\\U", "\a\\a"}
+	cfg.Keys = []string{"a", "b", "_x", "x1", "é", "key with space", "last", "true", "null", "strict", "to", "exists", "is", "with", "type", "\"q\"", "tab\there", "back\\slash", "C:\\apps", "\\U0001F600x", "\\a", "\U0001F600", "日本", "a.b", "$", "@", "", "1a", " nbsp", "​zw", "\x7f", "\ufffd", "k\ufffd"}
+	cfg.VarNames = []string{"v", "w", "arr", "x_1", "é", "with space", "1", "日本", "a\"b", "\ufffd"}
+	cfg.Strs = []string{"a", "ab", "", "x y", "\"", "\\", "\n", "\t\r\b\f\v", "é", "ÿ", "Ā", "퟿", "", "\U0001F600", "\U0010FFFF", "a\x01b", "\x7f", "\u0080", " ", "日本語", "'single'", "/* not a comment */", "\\u0041", "dir\\archive", "x\\U0001F600y\\", "\\\\a\\\\U", "\a\\a", "\ufffd", "x\ufffdy", "\ufffe\uffff", "\ufffd\ufffd"}
 	cfg.Nums = []string{"0", "1", "2", "10", "255", "2147483647", "2147483648", "9223372036854775807", "1.5", "2.0", "0.5", "0.001", "1e21", "123456789.125", "1e-7", "1.7976931348623157e308", "5e-324", "100.25", "4.0", "1e3"}
 	return cfg
 }
 
+var c03Seq int
+var c03Poison = []string{`$.a == 99999999999999999999`, `$.a like_regex "x" flag "z"`, `$.a.decimal(1,2,3) > 1`, `strict $.**{99999999999} == 1`, `$.a == 1e999 && $.b`, `$ ? (@ ==`, `lax $.a == "\u12"`,
+	`exists($.a ? (@ like_regex "(")) || $.b == 1`, `$.x > 1e400`}
+
 func checkSpelling(c *h.Ctx, ap *gen.Path, txt string, clause string) bool {
 	want := (&gen.Path{Lax: ap.Lax, Pred: ap.Pred, Root: gen.Normalize(ap.Root.Clone())}).Sexp()
+	// What a text parses to must not depend on what was parsed before it:
+	// every few cases a rejected path (a predicate, rejected late - by a
+	// literal out of range, a bad regex flag, a third decimal argument -
+	// or a plain syntax error) is parsed first.
+	c03Seq++
+	if c03Seq%3 == 0 {
+		_, _, _ = h.ParseSafe(c03Poison[(c03Seq/3)%len(c03Poison)])
+	}
 	p, err, pan := h.ParseSafe(txt)
 	c.Eval(1)
 	cs := h.Case{Kind: "spelling", Input: txt, Extra: map[string]string{"abstract": want}}
